@@ -695,6 +695,20 @@ def _run(case: Dict[str, Any], sim: Sim, world: World) -> None:
             for m_ in (m_fast, m_slow):
                 if m_ is not None and not gr.is_valid_map(ra2, rb2, dict(m_), mode="iso", node_ok=_eq_labels):
                     raise Violation(PROP, site, "embedding_invalid", "", {"map": {str(x): str(y) for x, y in m_.items()}, "a": a["spec"], "b": b["spec"]})
+            # the caller's own node matcher (charge only), everything else left at the signature defaults
+            by_charge = lambda x, y: x.get("charge", 0) == y.get("charge", 0)  # noqa: E731
+            ra3 = ref_graph(a["g"], ["charge"], ["order"], {"charge": 0}, 1)
+            rb3 = ref_graph(b["g"], ["charge"], ["order"], {"charge": 0}, 1)
+            same3 = lambda pk, hk: pk[0] == hk[0]  # noqa: E731
+            truth3 = gr.exists(ra3, rb3, mode="iso", node_ok=same3)
+            c_fast = gmorph.find_graph_isomorphism(a["g"], b["g"], node_match=by_charge)
+            c_slow = gmorph.find_graph_isomorphism(a["g"], b["g"], node_match=by_charge, fast_invariant_check=False)
+            if (c_fast is None) != (c_slow is None):
+                raise Violation(PROP, site, "filter_changes_verdict", "fast_invariant_check, caller's node_match",
+                                {"on": c_fast is not None, "off": c_slow is not None, "a": a["spec"], "b": b["spec"]})
+            if (c_slow is not None) != truth3:
+                raise Violation(PROP, site, "verdict_wrong", "caller's node_match", {"got": c_slow is not None, "reference": truth3,
+                                                                                     "a": a["spec"], "b": b["spec"]})
             sim.state(("giso", got, len(ra.nodes)))
             sim.event("q_giso", {"got": got})
         elif k == "q_find":
